@@ -54,6 +54,15 @@ Theorem C19_parse_exact : forall lex (ty64 : bool) (t : bytes) (m e : Z) (b : by
 Proof. exact parse_exact. Qed.
 Print Assumptions C19_parse_exact.
 
+(* the safety half without any guard: whatever the size of the exponent or the length of the text, a
+   spelling of the quantified classes is never accepted with a value other than the in-range integer
+   it denotes (never rounded, never wrapped) *)
+Theorem C19_parse_never_wrong : forall lex (ty64 : bool) (t : bytes) (m e : Z) (b : bytes) (q : Z),
+  lex_law lex -> denotes t m e -> json_of t b ->
+  parse_int ty64 lex b = Ok q -> sci_is m e q /\ in_range ty64 q = true.
+Proof. exact parse_sound. Qed.
+Print Assumptions C19_parse_never_wrong.
+
 (* the same for the text entry point (also used by the ABI input path): any sign, any size *)
 Theorem C19_big_integer_from_string_exact : forall (t : bytes) (m e : Z),
   denotes t m e -> guard t e ->
